@@ -9,6 +9,7 @@ on an object that never saw it.  (Sections are added as clusters land.)
 -/
 import TraitsVerif.Lemmas.SeqFault
 import TraitsVerif.Props.C04
+import TraitsVerif.Props.C12
 namespace TraitsVerif.Props.C19
 open TraitsVerif TraitsVerif.Py TraitsVerif.Model
 variable {α : Type}
@@ -77,6 +78,62 @@ theorem C19_list_twin (c : LenCfg) (E : Env α) (l : List α) (ops1 ops2 : List 
   refine ⟨?_, TraitListObject.run_append c E l ops1 ops2⟩
   rw [TraitListObject.run_append]
   simp [TraitListObject.run, h]
+
+/-! ### Key / value / member validators of Dict and Set traits -/
+
+section DictSet
+variable {K V : Type} [DecidableEq K]
+
+/-- Dict: whatever makes the operation fail (in particular a key or value
+validator raising at any call ordinal), the contents are as before, no notifier
+in any notifier list is called, and the exception is the validator's own or the
+builtin dict's KeyError. -/
+theorem C19_dict_no_effect (kv : Callback K K) (vv : Callback V V) (d : Py.Dict K V)
+    (op : Py.Dict.Op K V) (e : Exc) (h : Model.Map.TraitDict.step kv vv d op = .error e) :
+    (Model.Map.TraitDict.next kv vv d op = d
+      ∧ ∀ ns, Model.Map.TraitDict.notifications kv vv ns d op = [])
+    ∧ (Model.Map.validateOp kv vv d op = .error e ∨
+        (e = .keyError ∧ ∃ op', Model.Map.validateOp kv vv d op = .ok op'
+          ∧ Py.Dict.step d op' = .error .keyError)) :=
+  ⟨C06.C06_atomic kv vv d op e h, C06.C06_failure_causes kv vv d op e h⟩
+
+/-- Dict twin: after a failed operation the rest of the history is that of a
+dict that never saw it (`run` continues from the same contents). -/
+theorem C19_dict_twin (kv : Callback K K) (vv : Callback V V) (d : Py.Dict K V)
+    (op : Py.Dict.Op K V) (ops : List (Py.Dict.Op K V)) (e : Exc)
+    (h : Model.Map.TraitDict.step kv vv d op = .error e) :
+    Model.Map.TraitDict.run kv vv d (op :: ops) = .error e :: Model.Map.TraitDict.run kv vv d ops := by
+  simp [Model.Map.TraitDict.run, Model.Map.TraitDict.next, h]
+
+end DictSet
+
+section SetPart
+variable {β : Type} [DecidableEq β]
+
+/-- Set: the same for the item validator. -/
+theorem C19_set_no_effect (v : Callback β β) (s : Py.PSet β) (op : Py.PSet.Op β) (e : Exc)
+    (h : Model.SetM.TraitSet.step v s op = .error e) :
+    Model.SetM.TraitSet.next v s op = s ∧ Model.SetM.TraitSet.notification v s op = none :=
+  C07.C07_atomic v s op e h
+
+theorem C19_set_twin (v : Callback β β) (s : Py.PSet β) (op : Py.PSet.Op β)
+    (ops : List (Py.PSet.Op β)) (e : Exc) (h : Model.SetM.TraitSet.step v s op = .error e) :
+    Model.SetM.TraitSet.run v s (op :: ops) = .error e :: Model.SetM.TraitSet.run v s ops := by
+  simp [Model.SetM.TraitSet.run, Model.SetM.TraitSet.next, h]
+
+end SetPart
+
+/-! ### Property getter raising -/
+
+/-- A cached-property getter that raises writes no cache entry; the next read
+calls the getter again (C12's model). -/
+theorem C19_getter_raises {Val : Type} (P : Model.Property.Env Val) (s : Model.Property.St Val)
+    (e : Exc) (hmiss : s.cache = none) (hr : P.G s.calls s.heap = .error e) :
+    (Model.Property.readProp P s).1 = .error e ∧ (Model.Property.readProp P s).2.cache = none
+    ∧ ∀ v, P.G (s.calls + 1) s.heap = .ok v →
+        (Model.Property.readProp P (Model.Property.readProp P s).2).1 = .ok v :=
+  have h := C12.C12_getter_raises P s e hmiss hr
+  ⟨by rw [h.1], h.2.1, fun v hv => (h.2.2 v hv).1⟩
 
 /-! ### Non-vacuity -/
 
